@@ -1,8 +1,16 @@
 import SlotVerif.Model.Match
+import SlotVerif.Proofs.EMatch
 /-!
 # C05 — Reported matches denote terms that are really in the e-graph
 
-The matcher (`ematch_*`, `multi_ematch`) is not modelled.  Proved: the **match checker** — if
+The single-pattern matcher `ematch_all` / `ematch_impl` / `ematch_node` / `final_subst` with `enodes_applied` **is
+modelled** (`Model/EMatch.lean`) and tied to the code per run: the whole list of matches of every queried pattern is
+compared with the model's, as sets modulo the names of fresh slots and the symmetries of the bound classes (query
+`ematch`).  Proved about the model, for every dumped state, every well-formed pattern and every start state
+(`Proofs/EMatch.lean`): `ematch_binds_all` — **every returned substitution binds every pattern variable**;
+`matcher_state_invariant` — every state the matcher reaches extends the one it started from and **its map e-graph slot ↦
+pattern slot stays a well-formed injection while descending**.  `multi_ematch` is not modelled.  Also proved: the
+**match checker** — if
 `checkMatch` accepts a substitution on a dumped state, then every pattern variable is bound and the
 instantiated pattern looks up (read-only, in the snapshot model) to a class invocation; the check
 cannot succeed vacuously.  Per run every substitution the implementation returns is judged by it.
@@ -70,5 +78,40 @@ theorem checkEquation_sound (s : Snap) (σ : Subst) (v : String) (n : Node) (cs 
       | some b =>
         rw [hb] at h
         exact ⟨a, apps, b, rfl, rfl, hb, by simpa using h⟩
+
+/-- **every substitution `ematch_all` returns binds every variable of the pattern**, on every state -/
+theorem ematch_binds_all (s : Snap) (p : MPat) (hp : EMatch.wfPat p) (k : Nat) :
+    ∀ σ ∈ (EMatch.ematchAll s p k).1, ∀ v ∈ pvars p, ∃ b, Subst.get σ v = some b := by
+  intro σ hσ v hv
+  have hm := EMatch.ematchAll_binds s p hp k σ hσ v hv
+  obtain ⟨b, hb, hbv⟩ := List.mem_map.mp hm
+  unfold Subst.get
+  cases hf : σ.find? (·.1 == v) with
+  | some x => exact ⟨x.2, rfl⟩
+  | none =>
+    have := List.find?_eq_none.mp hf b hb
+    simp [hbv] at this
+
+/-- **the partial slot map stays a bijection while descending**: every state reached from a state whose slot map is a
+well-formed injection extends it and has a well-formed injective slot map again; all variables of the pattern are bound -/
+theorem matcher_state_invariant (s : Snap) (fuel : Nat) (p : MPat) (st : EMatch.MState) (i : AppId) (k : Nat)
+    (hp : EMatch.wfPat p) (hw : SlotMap.WF st.smap) (hi : SlotMap.Inj st.smap) :
+    ∀ st' ∈ (EMatch.ematchImpl s fuel p st i k).1,
+      (∃ ext, st'.subst = st.subst ++ ext) ∧ SlotMap.WF st'.smap ∧ SlotMap.Inj st'.smap ∧
+      (∀ a b, SlotMap.get st.smap a = some b → SlotMap.get st'.smap a = some b) ∧
+      ∀ v ∈ pvars p, v ∈ st'.subst.map (·.1) := by
+  intro st' h
+  obtain ⟨e, b⟩ := EMatch.ematchImpl_spec s fuel p st i k hp ⟨hw, hi⟩ st' h
+  exact ⟨e.pre, e.good.wf, e.good.inj, e.keep, b⟩
+
+/-- non-vacuity: on a two-class state (`a`, `h(a)`) the pattern `(h ?x)` is well formed and has exactly one match -/
+def demo : Snap :=
+  { uf := [⟨0, []⟩, ⟨1, []⟩],
+    classes := [
+      { id := 0, slots := [], nodes := [(⟨16, [.lit "a"]⟩, [])], gens := [], syn := ⟨16, [.lit "a"]⟩, data := "-" },
+      { id := 1, slots := [], nodes := [(⟨13, [.app ⟨0, []⟩]⟩, [])], gens := [], syn := ⟨13, [.app ⟨0, []⟩]⟩, data := "-" }] }
+def demoPat : MPat := .node ⟨13, [.app ⟨0, []⟩]⟩ [.pvar "x"]
+example : EMatch.wfPat demoPat := ⟨rfl, trivial, trivial⟩
+#guard ((EMatch.ematchAll demo demoPat 100).1.map fun σ => σ.map fun b => (b.1, b.2.id)) == [[("x", 0)]]
 
 end SV.C05
